@@ -21,5 +21,29 @@ Panicked == {i \in 1..N : Recs[i].panic # ""}
 Torn     == {i \in 1..N : Recs[i].kind = "alerts" /\ Recs[i].panic = "" /\ ~AlertsOk(Recs[i])}
 Noted    == {i \in 1..N : Recs[i].notes # <<>> /\ Recs[i].kind # "alerts"}
 
-ASSUME ndJsonSerialize(IOEnv.VERDICT_FILE, <<[n |-> N, panicked |-> Panicked, torn |-> Torn, noted |-> Noted]>>)
+\* --- lifecycle (part C): the observation is (doneCh closed within the deadline, a later Shutdown() returned);
+\* EventuallyStopped and UserShutdownReturns on the recorded run
+StopsOk(r) == r.done = 1 /\ r.later = 1
+Stuck == {i \in 1..N : Recs[i].kind = "lifecycle" /\ ~StopsOk(Recs[i])}
+
+\* --- fan-out (part D): EveryInformerPushed on the recorded start-up: every configured informer's metric name
+\* is among the names published within the deadline
+Range(f) == {f[x] : x \in DOMAIN f}
+PublishOk(r) == Range(r.want) \subseteq Range(r.seen)
+Unpushed == {i \in 1..N : Recs[i].kind = "publish" /\ ~PublishOk(Recs[i])}
+
+\* --- failure checks (part E): VerdictFromWindow on recorded checks.  A record is one FailedMetric() call:
+\* the run and the window version it was made on (the driver adds no metric while checks are running), its
+\* position in the run's global order (t0 = ticket taken before the call, t1 = after it) and its answer.
+\* The verdict is a function of the window contents and of the time elapsed since the latest metric, and for
+\* fixed contents it only moves from "not failed" to "failed" as time passes (expiry, then phi grows with the
+\* silence).  So among the checks of one version, none that starts after a check that answered "failed" has
+\* ended may answer "not failed".
+Checks == {i \in 1..N : Recs[i].kind = "check"}
+SameWindow(a, b) == a.run = b.run /\ a.ver = b.ver
+Unstable == {j \in Checks : Recs[j].failed = 0 /\
+                \E i \in Checks : SameWindow(Recs[i], Recs[j]) /\ Recs[i].t1 < Recs[j].t0 /\ Recs[i].failed = 1}
+
+ASSUME ndJsonSerialize(IOEnv.VERDICT_FILE, <<[n |-> N, panicked |-> Panicked, torn |-> Torn, noted |-> Noted,
+                                              stuck |-> Stuck, unpushed |-> Unpushed, unstable |-> Unstable]>>)
 =============================================================================
